@@ -62,6 +62,22 @@ def main(tier):
         sk = rng.randrange(1, R.N); key = R.pubkey_xonly(sk)[0]
         scripts = [bytes([0x51 + rng.randrange(16)]) + bytes([rng.randrange(0x51, 0x61)]) for _ in range(n)]
         jobs.append((key, scripts, rng.randrange(n), "bcrt"))
+    # sibling hashes with a common prefix that contains a zero byte (and one that does not), in both orders: the branch hash must order them as
+    # 32-byte strings whatever their content
+    def grind(prefix):
+        k = 0
+        while True:
+            scr = b"\x04" + k.to_bytes(4, "little") + b"\x75\x51"
+            if tagged("TapLeaf", b"\xc0" + bytes([len(scr)]) + scr).startswith(prefix): return scr
+            k += 1
+    for prefix in (b"\x00", b"\x00", b"\x7f", b"\xff"):
+        a = grind(prefix); b = a
+        while b == a or not tagged("TapLeaf", b"\xc0" + bytes([len(b)]) + b).startswith(prefix):
+            b = b"\x04" + rng.randrange(2 ** 32).to_bytes(4, "little") + b"\x75\x51"
+        sk = rng.randrange(1, R.N); key = R.pubkey_xonly(sk)[0]
+        for scripts in ([a, b], [b, a], [a, b, b"\x51"], [b"\x51", b, a]):
+            for idx in [None] + list(range(len(scripts))):
+                jobs.append((key, scripts, idx, "bcrt"))
     lines = []
     for i, (key, scripts, idx, hrp) in enumerate(jobs):
         l = "tap id=%d key=%s scripts=%s hrp=%s" % (i, key.hex(), ",".join(s.hex() for s in scripts), hrp)
@@ -126,6 +142,69 @@ def main(tier):
             if " done " not in impl[cid][0]:
                 cs_["diffs"] += 1
                 chk.violation("tap-not-spendable", "the debugger's commitment check rejects the witness tap emitted", {"stream": "debugger-accepts", "case": c, "impl": impl[cid]})
+    # ---- the reported signature hash is the BIP341/342 digest of the transaction tap outputs; signing it and passing it back gives a valid spend
+    import gen_spend as S
+    sh_jobs = []
+    for _ in range(16 if tier == "quick" else 150):
+        sk = rng.randrange(1, R.N); key = R.pubkey_xonly(sk)[0]
+        lsk = rng.randrange(1, R.N); lpk = R.pubkey_xonly(lsk)[0]
+        n = rng.randrange(1, 6)
+        idx = rng.randrange(n)
+        scripts = [bytes([0x51 + rng.randrange(16)]) for _ in range(n)]
+        scripts[idx] = b"\x20" + lpk + b"\xac"
+        sh_jobs.append((sk, key, lsk, scripts, idx, rng.choice(["key", "script"]), rng.randrange(3), rng.randrange(1, 10 ** 8)))
+    sh_lines = ["tap id=s%d key=%s scripts=%s hrp=bcrt idx=%d" % (i, j[1].hex(), ",".join(x.hex() for x in j[3]), j[4]) for i, j in enumerate(sh_jobs)]
+    sh_model = run_model(sh_lines)
+    def run_sh(ij):
+        i, (sk, key, lsk, scripts, idx, mode, vpos, amount) = ij
+        f = dict(x.split("=", 1) for x in sh_model["s%d" % i][0].split()[2:] if "=" in x)
+        outkey = bytes.fromhex(f["outkey"]); spk = b"\x51\x20" + outkey
+        outs = [(rng.randrange(1, 10 ** 7), bytes([0x6a, 1, k])) for k in range(vpos)] + [(amount, spk)] + [(7, b"\x51")]
+        fund = S.Tx(2, [(bytes(range(32)), 0, b"", 0xffffffff)], outs, 0)
+        tx = S.Tx(2, [(fund.txid(), vpos, b"", 0xfffffffd)], [(amount - 500, b"\x51\x20" + bytes(32))], 17)
+        base = ["-pbcrt", "--tx=" + tx.raw().hex(), "--txin=" + fund.raw().hex(), key.hex(), str(len(scripts))] + ["0x" + x.hex() for x in scripts]
+        args = base + ([str(idx)] if mode == "script" else [])
+        r1 = cli.run(tapbin, args, stdin_tty=True, stdout_tty=True)
+        txt = (r1["stdout"] or b"") + (r1["stderr"] or b"")
+        m = re.search(rb"sighash \(little endian\) = ([0-9a-f]{64})", txt)
+        if mode == "script":
+            lh = tagged("TapLeaf", bytes([0xc0]) + S.cs(len(scripts[idx])) + scripts[idx])
+            want = S.bip341_digest(tx, 0, 0, [(amount, spk)], 1, leaf_hash=lh)
+            sig = R.schnorr_sign(want, lsk)
+        else:
+            want = S.bip341_digest(tx, 0, 0, [(amount, spk)], 0)
+            d = sk if R.mul(sk, R.G)[1] % 2 == 0 else R.N - sk
+            sig = R.schnorr_sign(want, (d + int(f["tweak"], 16)) % R.N)
+        r2 = cli.run(tapbin, ["--sig=" + sig.hex()] + args, stdin_tty=True)
+        m2 = re.search(rb"Resulting transaction: ([0-9a-f]+)", r2["stdout"] or b"")
+        return i, {"reported": m.group(1).decode() if m else None, "want": want.hex(), "signed_tx": m2.group(1).decode() if m2 else None, "fund": fund.raw().hex(), "argv": args,
+                   "rc": r1["rc"], "sig": r1["sig"], "stderr": (r1["stderr"] or b"")[-300:].decode("latin1")}
+    with concurrent.futures.ThreadPoolExecutor(vlib.NCPU) as ex:
+        sh_res = dict(ex.map(run_sh, list(enumerate(sh_jobs))))
+    st2 = chk.streams.setdefault("sighash", {"cases": 0, "diffs": 0, "known": 0})
+    rt_cases = []
+    for i, j in enumerate(sh_jobs):
+        r = sh_res[i]; st2["cases"] += 1; chk.evaluations += 1; chk.nontrivial.add(("sighash", i, j[5], j[6]))
+        bad = None
+        if r["reported"] is None: bad = "tap did not report a signature hash (rc=%s sig=%s)" % (r["rc"], r["sig"])
+        elif r["reported"] != r["want"]: bad = "reported signature hash %s is not the BIP341/342 digest %s of the transaction (%s path, spent output #%d)" % (r["reported"], r["want"], j[5], j[6])
+        elif r["signed_tx"] is None: bad = "tap --sig produced no transaction"
+        else: rt_cases.append("spend id=rt%d tx=%s txin=%s flags=%d cmds=c" % (i, r["signed_tx"].encode().hex(), r["fund"].encode().hex(), 0x1FFFDF))
+        if bad:
+            st2["diffs"] += 1
+            if st2["diffs"] <= 3:
+                chk.violation("tap-sighash", bad, {"stream": "sighash", "binary": "tap", "argv": r["argv"], "stdin_tty": True, "stdout_tty": True, "observed": r})
+    if rt_cases:
+        impl = run_impl(rt_cases)
+        st3 = chk.streams.setdefault("round-trip(impl only)", {"cases": 0, "diffs": 0, "known": 0})
+        for c in rt_cases:
+            cid = re.search(r"id=(\S+)", c).group(1)
+            st3["cases"] += 1; chk.evaluations += 1
+            last = [l for l in impl.get(cid, []) if re.match(r"R \S+ #\d+ ", l)]
+            if not (last and " done=1 " in last[-1] and " err=0 " in last[-1] and " st=01 " in last[-1]):
+                st3["diffs"] += 1
+                if st3["diffs"] <= 3:
+                    chk.violation("tap-round-trip", "a signature over the reported digest, passed back with --sig, does not give a spend the debugger accepts", {"stream": "round-trip", "case": c[:6000], "impl": [l[:600] for l in impl.get(cid, [])[-3:]]})
     chk.extra["exhaustive"] = True
     chk.extra["exhaustive_part"] = "every (n, index) with n <= %d" % maxn
     return chk.finish(RULE, trusted_extra=["tools/refcrypto.py answers the model's xonly-tweak-add oracle"])
